@@ -223,6 +223,17 @@ pub(super) fn regex_matches_optimized(left: &FieldValue, regex: &Regex) -> bool 
     }
 }
 
+/// Check a value against a regex pattern precompiled from a runtime parameter, if it was valid.
+///
+/// Consistent with [`regex_matches_slow_path`], an invalid pattern doesn't match any value.
+#[inline(always)]
+fn regex_matches_precompiled(left: &FieldValue, regex: &Option<Regex>) -> bool {
+    match regex {
+        Some(regex) => regex_matches_optimized(left, regex),
+        None => false,
+    }
+}
+
 fn apply_unary_filter<
     'query,
     Vertex: Debug + Clone + 'query,
@@ -455,16 +466,15 @@ fn apply_filter_with_static_argument_value<'query, Vertex: Debug + Clone + 'quer
             apply_filter_op_with_static_argument(right_value, not!(has_substring), iterator)
         }
         Operation::RegexMatches(_, _) => {
+            // As with tagged values, an argument that isn't a valid regex doesn't match anything.
             let pattern =
-                Regex::new(right_value.as_str().expect("regex argument was not a string"))
-                    .expect("regex argument was not a valid regex");
-            apply_filter_op_with_static_argument(pattern, regex_matches_optimized, iterator)
+                Regex::new(right_value.as_str().expect("regex argument was not a string")).ok();
+            apply_filter_op_with_static_argument(pattern, regex_matches_precompiled, iterator)
         }
         Operation::NotRegexMatches(_, _) => {
             let pattern =
-                Regex::new(right_value.as_str().expect("regex argument was not a string"))
-                    .expect("regex argument was not a valid regex");
-            apply_filter_op_with_static_argument(pattern, not!(regex_matches_optimized), iterator)
+                Regex::new(right_value.as_str().expect("regex argument was not a string")).ok();
+            apply_filter_op_with_static_argument(pattern, not!(regex_matches_precompiled), iterator)
         }
 
         Operation::IsNull(_) | Operation::IsNotNull(_) => unreachable!("{filter:?}"),
